@@ -107,6 +107,11 @@ func checkMsg(c msgCase) error {
 	if !bytes.Equal(p, w) {
 		return pbt.Errf("layout: Pack differs from the RFC encoding: %s", hexdiff(p, w))
 	}
+	// (1b) the same octets when packing into caller-supplied memory that was used before
+	dirty := bytes.Repeat([]byte{0xA5}, len(w)+1+int(m.ID%5))
+	if pb, err := lib.PackBuffer(dirty); err != nil || !bytes.Equal(pb, w) {
+		return pbt.Errf("layout: PackBuffer into a used (non-zero) buffer differs from the RFC encoding (err=%v): %s", err, hexdiff(pb, w))
+	}
 	// (2) lossless
 	var u dns.Msg
 	if err := u.Unpack(w); err != nil {
@@ -193,7 +198,7 @@ func checkRR(c rrCase) error {
 	if err != nil {
 		return nil
 	}
-	buf := make([]byte, len(w)+10)
+	buf := bytes.Repeat([]byte{0xA5}, len(w)+10) // used memory: the packer must not rely on zeroed buffers
 	off, err := dns.PackRR(rr, buf, 0, nil, false)
 	if err != nil {
 		return pbt.Errf("PackRR failed: %v (reference %s)", err, hx(w))
